@@ -37,6 +37,14 @@ if TYPE_CHECKING:
     from black_it.schedulers.base import BaseScheduler
 
 
+IN_PROGRESS_MARKER = "checkpoint_in_progress"
+"""Name of the file that exists in a checkpoint folder only while a checkpoint is being written."""
+
+
+class IncompleteCheckpointError(RuntimeError):
+    """Raised when loading a checkpoint whose last save was interrupted."""
+
+
 def load_calibrator_state(checkpoint_path: PathLike, _code_state_version: int) -> tuple:
     """Load calibrator data from a given folder.
 
@@ -48,6 +56,13 @@ def load_calibrator_state(checkpoint_path: PathLike, _code_state_version: int) -
         all the data needed to reconstruct the calibrator state
     """
     checkpoint_path = Path(checkpoint_path)
+    if (checkpoint_path / IN_PROGRESS_MARKER).exists():
+        msg = (
+            f"the checkpoint in {checkpoint_path} was interrupted while it was being written: "
+            "its files may belong to different calibration states"
+        )
+        raise IncompleteCheckpointError(msg)
+
     with (checkpoint_path / "calibration_params.json").open() as f:
         cp = json.load(f)
 
@@ -164,6 +179,11 @@ def save_calibrator_state(  # noqa: PLR0913
     if not checkpoint_path.exists():
         checkpoint_path.mkdir(parents=True)
 
+    # the checkpoint consists of several files written one after the other: mark the folder as
+    # inconsistent until the last one is complete, so that an interrupted save cannot be loaded
+    in_progress_marker = checkpoint_path / IN_PROGRESS_MARKER
+    in_progress_marker.touch()
+
     calibration_params = {
         "parameters_bounds": parameters_bounds,
         "parameters_precision": parameters_precision,
@@ -235,7 +255,9 @@ def save_calibrator_state(  # noqa: PLR0913
                 # Write the appended portion
                 data[nb_rows:new_num_rows] = to_append
 
-                return
+        if is_prefix:
+            in_progress_marker.unlink()
+            return
 
     # If the file does not exist (or holds other data), create it and store the entire dataset in one shot.
     with h5py.File(series_filepath, mode="w") as series_file:
@@ -250,4 +272,5 @@ def save_calibrator_state(  # noqa: PLR0913
             dtype="float64",
         )
 
+    in_progress_marker.unlink()
     return
